@@ -636,4 +636,35 @@ theorem C19_history (env : Env σ) (ops : List COp) (w : WC σ) : Same w.cons (o
     | seek t p off => exact C19_seek_keeps t p off w
     | consume t p off => exact C19_consume_keeps t p off w
     | commit => exact C19_commit_keeps env w
+/-- what `subscriptions()` reports is a function of the key list and the assignment table alone … -/
+theorem subscriptions_of_keys (c : Consumer) :
+    subscriptions c = (c.fetchOffsets.map (·.1)).foldl
+      (fun m tp => upsert m ((c.assignments[tp.topicRef]?.map (·.1)).getD []) [] (· ++ [tp.partition])) [] := by
+  unfold subscriptions Consumer.topicName
+  rw [List.foldl_map]
+
+/-- … so it is the same after any history of operations: **the reported subscriptions never change** -/
+theorem C19_subscriptions_stable (env : Env σ) (ops : List COp) (w : WC σ) :
+    subscriptions (ops.foldl (runOp env) w).cons = subscriptions w.cons := by
+  obtain ⟨hk, ha⟩ := C19_history env ops w
+  rw [subscriptions_of_keys, subscriptions_of_keys, hk, ha]
+
+/-- a regular poll asks for exactly the table's entries: one Fetch argument per key, in table order, with the key's own offset
+    and size (a retry poll asks for the one queued key, if it is in the table, and for nothing otherwise) -/
+theorem C19_poll_asks_table (env : Env σ) (w : WC σ) (h : w.cons.retry = []) :
+    poll env w = ((liftClient (fetchMessages env (w.cons.fetchOffsets.map fun x =>
+        (⟨w.cons.topicName x.1.topicRef, x.1.partition, x.2.offset, x.2.maxBytes⟩ : FetchArg)))) >>=
+      fun resps => processResponses w.cons.fetchOffsets.length resps) w := by
+  unfold poll
+  rw [M.bind_def]
+  simp only [getCons, h]
+
+theorem C19_retry_poll_asks_one (env : Env σ) (w : WC σ) (tp : TP) (rest : List TP) (h : w.cons.retry = tp :: rest)
+    (hk : assocGet w.cons.fetchOffsets tp = none) :
+    (poll env w).2 = .err (.kafka 3) := by
+  unfold poll
+  rw [M.bind_def]
+  simp only [getCons, h]
+  rw [M.bind_def]
+  simp [modCons, M.modify, hk, M.fail]
 end Kafka.Props.C19
